@@ -46,6 +46,23 @@ func classifyChan(ch ssa.Value) (kind string, ctx ssa.Value) {
 	if call, ok := v.(*ssa.Call); ok && call.Call.IsInvoke() && call.Call.Method.Name() == "Done" && isContextType(call.Call.Value.Type()) {
 		return "ctx-done", call.Call.Value
 	}
+	// a channel parameter of an unexported helper (readyBeforeDone(ctx.Done(), ch)): what every call site hands in
+	if p, ok := v.(*ssa.Parameter); ok {
+		if args := helperChanArgs(p); len(args) > 0 {
+			kind0, ctx0 := "", ssa.Value(nil)
+			for i, a := range args {
+				k, cx := classifyChan(a)
+				if i == 0 {
+					kind0, ctx0 = k, cx
+				} else if k != kind0 {
+					return "data", nil
+				}
+			}
+			if kind0 == "ctx-done" {
+				return kind0, ctx0
+			}
+		}
+	}
 	// timer.C, or a variable that is only ever assigned timer.C or nil
 	if isTimerChan(v, 0) {
 		return "timer", nil
@@ -221,7 +238,85 @@ func fieldOfChan(ch ssa.Value) string {
 			return fieldName(fa.X.Type(), fa.Field)
 		}
 	}
+	if p, ok := v.(*ssa.Parameter); ok {
+		f0 := ""
+		for i, a := range helperChanArgs(p) {
+			f := fieldOfChan(a)
+			if i == 0 {
+				f0 = f
+			} else if f != f0 {
+				return ""
+			}
+		}
+		return f0
+	}
 	return ""
+}
+
+var helperChanArgsBusy = map[*ssa.Parameter]bool{}
+
+// chanParamBinding: while a rule analyses ONE caller, the channel parameters of the helpers it calls stand for that caller's
+// arguments (readyBeforeDone(ctx.Done(), f.c) seen from Future.WaitContext), not for the union over all call sites.
+var chanParamBinding = map[*ssa.Parameter]ssa.Value{}
+
+// bindChanParams binds, for every static in-package call in fn, the callee's channel parameters to fn's arguments; the
+// returned function removes the bindings again.
+func bindChanParams(fn *ssa.Function) func() {
+	var bound []*ssa.Parameter
+	instrs(fn, func(_ *ssa.BasicBlock, _ int, in ssa.Instruction) {
+		call, ok := in.(*ssa.Call)
+		if !ok {
+			return
+		}
+		cal := staticCallee(&call.Call)
+		if cal == nil || cal.Blocks == nil || cal.Parent() != nil || rootFn(origin(cal)).Pkg != rootFn(fn).Pkg {
+			return
+		}
+		o := origin(cal)
+		for i, a := range call.Call.Args {
+			if i < len(o.Params) {
+				if _, isChan := o.Params[i].Type().Underlying().(*types.Chan); isChan {
+					chanParamBinding[o.Params[i]] = resolveVal(a)
+					bound = append(bound, o.Params[i])
+				}
+			}
+		}
+	})
+	return func() {
+		for _, p := range bound {
+			delete(chanParamBinding, p)
+		}
+	}
+}
+
+// helperChanArgs: for a channel-typed parameter of an unexported top-level function, the (resolved) argument at every call site.
+func helperChanArgs(p *ssa.Parameter) []ssa.Value {
+	fn := p.Parent()
+	if fn == nil || fn.Parent() != nil || token.IsExported(fn.Name()) || curCtx == nil || helperChanArgsBusy[p] {
+		return nil
+	}
+	if _, isChan := p.Type().Underlying().(*types.Chan); !isChan {
+		return nil
+	}
+	if b, ok := chanParamBinding[p]; ok {
+		return []ssa.Value{b}
+	}
+	helperChanArgsBusy[p] = true
+	defer delete(helperChanArgsBusy, p)
+	idx := -1
+	for i, q := range fn.Params {
+		if q == p {
+			idx = i
+		}
+	}
+	var out []ssa.Value
+	for _, cc := range callCommonsOf(curCtx, fn) {
+		if idx < 0 || idx >= len(cc.Args) {
+			return nil
+		}
+		out = append(out, resolveVal(cc.Args[idx]))
+	}
+	return out
 }
 
 func chanElemIsEmptyStruct(t types.Type) bool {
